@@ -586,14 +586,14 @@ def run_one(seed, keep=None):
     d = tempfile.mkdtemp(prefix='dt%d-' % seed)
     try:
         cf = os.path.join(d, 'p.c'); open(cf, 'w').write(src)
-        r = subprocess.run(['gcc', '-w', '-O0', '-fsanitize=undefined,float-cast-overflow', '-fno-sanitize-recover=all', '-o', os.path.join(d, 'p'), cf], capture_output=True, text=True)
+        r = subprocess.run(['gcc', '-w', '-O0'] + (['-funsigned-char'] if os.environ.get('CPROC_TARGET') in ('aarch64', 'riscv64') else []) + [ '-fsanitize=undefined,float-cast-overflow', '-fno-sanitize-recover=all', '-o', os.path.join(d, 'p'), cf], capture_output=True, text=True)
         if r.returncode: return 'gen-error', 'gcc: ' + r.stderr[:400], src
         try:
             n = subprocess.run([os.path.join(d, 'p')], capture_output=True, text=True, timeout=10)
         except subprocess.TimeoutExpired:
             return 'gen-timeout', '', src
         if 'runtime error' in n.stderr or n.returncode < 0: return 'gen-ub', n.stderr[:300], src
-        c = subprocess.run([CPROC, cf], capture_output=True, text=True)
+        c = subprocess.run([CPROC] + (['-t', os.environ['CPROC_TARGET']] if os.environ.get('CPROC_TARGET') else []) + [cf], capture_output=True, text=True)
         if c.returncode != 0:
             return ('cproc-crash' if c.returncode not in (1,) else 'cproc-reject'), c.stderr[:300], src
         try:
